@@ -18,7 +18,7 @@ use crate::udpdrv::{self, hex, thread_tmp_path, GenParams, UdpCase};
 use crate::{vensure, vfail};
 use crate::wsdrv::{self, WsCase, WsGen};
 
-pub const RULE: &str = "(reload) sequences of list files built from a known hash set with decorations (upper/lower/mixed-case hex, blank lines, leading/trailing blanks and tabs, CRLF, trailing newline or not) and faults (39/41-digit line, non-hex character, non-UTF-8 byte, missing file) at generated line positions, loaded through update_access_list in modes allow/deny/off; oracle = model A (parse whole file or keep the old set; decisions via AccessListArcSwap::allows and a cache created before the reload). (storage) histories of announce / swap-list / clean / scrape / observe on the UDP, HTTP and WS storage drivers in all three modes, where announces of currently forbidden hashes are withheld as the socket workers do, and the next clean must remove exactly the forbidden torrents and leave permitted ones untouched (compared with models S / W after every step). non-trivial = a failed reload after a good one, a fault at line position > 0, or a list swap that forbids a torrent holding peers followed by a clean; distinct = distinct serialised case";
+pub const RULE: &str = "(reload) sequences of list files built from a known hash set with decorations (upper/lower/mixed-case hex, blank lines, leading/trailing blanks and tabs, CRLF, trailing newline or not) and faults (39/41-digit line, non-hex character, non-UTF-8 byte, missing file) at generated line positions, a third of the reloads being the previous file with one entry replaced (same length), files either rewritten in place or deployed as packaging tools do (written elsewhere, modification time set to a fixed release time, renamed into place), loaded through update_access_list in modes allow/deny/off; oracle = model A (parse whole file or keep the old set; decisions via AccessListArcSwap::allows and a cache created before the reload). (storage) histories of announce / swap-list / clean / scrape / observe on the UDP, HTTP and WS storage drivers in all three modes, where announces of currently forbidden hashes are withheld as the socket workers do, and the next clean must remove exactly the forbidden torrents and leave permitted ones untouched (compared with models S / W after every step). non-trivial = a failed reload after a good one, a fault at line position > 0, or a list swap that forbids a torrent holding peers followed by a clean; distinct = distinct serialised case";
 
 #[derive(Debug, Clone, Serialize, Deserialize, PartialEq)]
 pub enum Line {
@@ -36,6 +36,11 @@ pub struct FileSpec {
     pub lines: Vec<Line>,
     pub crlf: bool,
     pub trailing_newline: bool,
+    /// how the file gets there: 0 written in place, time stamps as they come; 1 / 2 deployed the
+    /// way packaging tools do it - written elsewhere, modification time set to a fixed release
+    /// time (1: the same for every file, 2: one hour later per reload), renamed into place
+    #[serde(default)]
+    pub deploy: u8,
 }
 
 #[derive(Debug, Clone, Serialize, Deserialize)]
@@ -123,8 +128,19 @@ pub fn prop_reload(case: &ReloadCase) -> CaseResult {
         let _ = std::fs::remove_file(&path);
         let (bytes, denoted) = render(f);
         if !f.missing {
-            let mut fh = std::fs::File::create(&path).expect("create list file");
-            fh.write_all(&bytes).unwrap();
+            if f.deploy % 3 == 0 {
+                let mut fh = std::fs::File::create(&path).expect("create list file");
+                fh.write_all(&bytes).unwrap();
+            } else {
+                let tmp = path.with_extension("deploy");
+                let mut fh = std::fs::File::create(&tmp).expect("create list file");
+                fh.write_all(&bytes).unwrap();
+                let release = std::time::UNIX_EPOCH + std::time::Duration::from_secs(1_577_836_800 + if f.deploy % 3 == 2 { 3600 * i as u64 } else { 0 });
+                fh.set_modified(release).expect("set mtime");
+                drop(fh);
+                std::fs::rename(&tmp, &path).expect("rename list file");
+                out.label("deployed-with-fixed-mtime");
+            }
         }
         let result = update_access_list(&config, &arc);
         let expect_ok = mode == AccessListMode::Off || (!f.missing && denoted.is_some());
@@ -220,17 +236,42 @@ fn file_spec() -> impl Strategy<Value = FileSpec> {
     prop_oneof![
         // good files
         5 => (proptest::collection::vec(good_line(), 0..10), any::<bool>(), any::<bool>())
-            .prop_map(|(lines, crlf, trailing_newline)| FileSpec { missing: false, lines, crlf, trailing_newline }),
+            .prop_map(|(lines, crlf, trailing_newline)| FileSpec { missing: false, lines, crlf, trailing_newline, deploy: 0 }),
         // possibly faulty files
         4 => (proptest::collection::vec(line(1), 0..10), any::<bool>(), any::<bool>())
-            .prop_map(|(lines, crlf, trailing_newline)| FileSpec { missing: false, lines, crlf, trailing_newline }),
-        1 => Just(FileSpec { missing: true, lines: vec![], crlf: false, trailing_newline: false }),
+            .prop_map(|(lines, crlf, trailing_newline)| FileSpec { missing: false, lines, crlf, trailing_newline, deploy: 0 }),
+        1 => Just(FileSpec { missing: true, lines: vec![], crlf: false, trailing_newline: false, deploy: 0 }),
     ]
 }
 
 fn reload_case() -> impl Strategy<Value = ReloadCase> {
-    (prop_oneof![1 => Just(0u8), 3 => Just(1u8), 3 => Just(2u8)], proptest::collection::vec(file_spec(), 1..6))
-        .prop_map(|(mode, files)| ReloadCase { mode, files })
+    (
+        prop_oneof![1 => Just(0u8), 3 => Just(1u8), 3 => Just(2u8)],
+        proptest::collection::vec(file_spec(), 1..6),
+        // per reload: (derive from the previous file, which line, new hash, deployment style)
+        proptest::collection::vec((prop_oneof![2 => Just(false), 1 => Just(true)], any::<u8>(), 0u8..10, prop_oneof![3 => Just(0u8), 2 => Just(1u8), 1 => Just(2u8)]), 6),
+    )
+        .prop_map(|(mode, mut files, tweaks)| {
+            for i in 0..files.len() {
+                let (derive, pos, new_idx, deploy) = tweaks[i];
+                files[i].deploy = deploy;
+                // a new release of the list that differs from the previous one in a single entry:
+                // same length, same decorations, other content
+                if derive && i > 0 && !files[i - 1].missing {
+                    let mut f = files[i - 1].clone();
+                    let hashes: Vec<usize> = f.lines.iter().enumerate().filter(|(_, l)| matches!(l, Line::Hash { .. })).map(|(k, _)| k).collect();
+                    if !hashes.is_empty() {
+                        let k = hashes[pos as usize * hashes.len() / 256];
+                        if let Line::Hash { idx, .. } = &mut f.lines[k] {
+                            *idx = if *idx == new_idx { (new_idx + 1) % 10 } else { new_idx };
+                        }
+                        f.deploy = deploy;
+                        files[i] = f;
+                    }
+                }
+            }
+            ReloadCase { mode, files }
+        })
 }
 
 // ---- storage level -------------------------------------------------------------------------
